@@ -7,7 +7,7 @@
    of actions (Packet now src datagram tie_break | Tick now) to the state.  Time and the eviction
    tie-break (Go map order) are inputs chosen by the environment, so "forall acts" covers every
    stream of well- or ill-formed datagrams from any sources at any times. *)
-From Hy Require Import model.C14_Gecko proof.C14_Gecko proof.C14_Sender proof.C14_Recv proof.C14_Round.
+From Hy Require Import model.C14_Gecko proof.C14_Gecko proof.C14_Sender proof.C14_Recv proof.C14_Round proof.C14_WriteErr.
 From Coq Require Import ZArith.
 Local Open Scope Z_scope.
 
@@ -41,6 +41,48 @@ Theorem C14_sender_passthrough : forall c ctr p o b0 t,
   p = b0 :: t -> (N.land (b2n b0) 128 =? 0)%N = true -> write_to c ctr p o = Ok ([p], ctr, zlen p).
 Proof. exact sender_passthrough. Qed.
 Print Assumptions C14_sender_passthrough.
+
+(* Inner write errors.  `write_to_f c ctr p o fail` = WriteTo when the inner conn's k-th WriteTo call
+   (fail = Some k) returns an error.  For a long-header packet, any counter, any draws, ANY k: let fs be the
+   n frames the fault-free call sends (C14_sender_frames: frame i = chunk i under message id
+   uint8(counter+1)).  If k < n the call reports the error, exactly the frames before position k - a
+   prefix of fs, all under that id - have reached the wire, and the message id stays CONSUMED: the counter is
+   counter+1 exactly as after a successful write (it is not handed back); if k >= n the fault is never reached
+   and the call is the fault-free one. *)
+Theorem C14_write_error : forall c ctr p o k b0 t,
+  cfg_ok c -> p = b0 :: t -> (N.land (b2n b0) 128 =? 0)%N = false ->
+  exists fs n,
+    (2 <= n <= 8)%nat /\ length fs = n /\
+    concat (split_spec p n) = p /\
+    frames_ok c (ctr_next ctr mod 256)%N (split_spec p n) fs /\
+    write_to c ctr p o = Ok (fs, ctr_next ctr, zlen p) /\
+    write_to_f c ctr p o None = Ok (mkW fs None (ctr_next ctr) (WDone (zlen p))) /\
+    write_to_f c ctr p o (Some k) =
+      Ok (if Nat.ltb k n
+          then mkW (firstn k fs) (Some (nth k fs [])) (ctr_next ctr) WFail
+          else mkW fs None (ctr_next ctr) (WDone (zlen p))).
+Proof. exact write_error_spec. Qed.
+Print Assumptions C14_write_error.
+
+(* Message ids over ANY sequence of WriteTo calls on one conn (any packets - long-header, short-header,
+   empty -, any draws, an inner write error at any position of any call): no call panics, and the i-th
+   call, when it carries a long-header packet, runs under message id
+   (start + number of long-header packets up to and including it) mod 256 (w_ctr is the counter it leaves;
+   by C14_write_error its frames carry w_ctr mod 256).  Hence two long-header writes i < j use DIFFERENT
+   ids unless the number of long-header writes in (i, j] is a multiple of 256 - in particular successive
+   ones always differ, whether or not either of them (or anything in between) failed, so chunks orphaned
+   by a failed write can never meet the chunks of a later message under the same reassembly key within
+   256 messages (hypothesis (a) of C14_roundtrip_any_order / `conforms` of C14_no_chimera). *)
+Theorem C14_ids_differ : forall c ctr ws i j,
+  cfg_ok c -> (ctr < 2 ^ 32)%N -> (i < j < length ws)%nat ->
+  exists outs, send_run c ctr ws = Ok outs /\ length outs = length ws /\
+    forall d,
+      (w_ctr (nth i outs d) mod 256 = (ctr + count_long (firstn (S i) ws)) mod 256)%N /\
+      (w_ctr (nth j outs d) mod 256 = (ctr + count_long (firstn (S j) ws)) mod 256)%N /\
+      (((count_long (firstn (S j) ws) - count_long (firstn (S i) ws)) mod 256 <> 0)%N ->
+       (w_ctr (nth i outs d) mod 256 <> w_ctr (nth j outs d) mod 256)%N).
+Proof. exact ids_differ. Qed.
+Print Assumptions C14_ids_differ.
 
 (* Size range: for every chunk length and every random draw the padding fits uint16 and, whenever
    salt + header + chunk <= max, the datagram size salt + header + pad + chunk is within [min, max]. *)
